@@ -54,7 +54,7 @@ SPEC = dict(
     units=[
         pbt("c15_http", "harness/c15_http.cpp", dict(
             selfcheck=P(2000, 30000, 1, 2, q_secs=40, t_secs=420),
-            server_valid=P(300, 2500, 4, 16, q_secs=40, t_secs=420),
+            server_valid=P(300, 2000, 4, 16, q_secs=40, t_secs=420),
             server_badlen=P(300, 2500, 3, 8, q_secs=40, t_secs=420),
             server_bytes=P(1200, 10000, 3, 8, q_secs=40, t_secs=420),
             server_caps=P(6, 40, 1, 2, q_secs=40, t_secs=420),
@@ -66,11 +66,11 @@ SPEC = dict(
         ), cxx="g++"),
         fuzz("fuzz_http_server", "harness/fuzz_http_server.cpp",
              dict(runs=60000, procs=8, max_len=600, max_seconds=10, timeout=25),
-             dict(runs=6000000, procs=16, max_len=2048, max_seconds=200, timeout=25),
+             dict(runs=6000000, procs=16, max_len=2048, max_seconds=150, timeout=25),
              corpus="corpus/C15/server", dict="corpus/C15/http.dict", flags=_FLAGS),
         fuzz("fuzz_http_client", "harness/fuzz_http_client.cpp",
              dict(runs=400000, procs=8, max_len=600, max_seconds=10, timeout=25),
-             dict(runs=40000000, procs=16, max_len=2048, max_seconds=200, timeout=25),
+             dict(runs=40000000, procs=16, max_len=2048, max_seconds=150, timeout=25),
              corpus="corpus/C15/client", dict="corpus/C15/http.dict", flags=_FLAGS),
     ],
 )
